@@ -241,7 +241,7 @@ def rt_value(kind, ival, sval, bval, jval) -> bool:
 # native file-level batches (real lexer, parser, files)
 
 
-VALUES = [None, True, False, 0, 7, -3, 2.5, -0.25, 10.0, 'txt', 'a b', 'x', [1, 2], ['a', True, 2.5], [[1, 2], ['z']], {'k': 1}, {'k': [1, 2], 'm': {'z': True, 'w': None}}, [1, 'x']]
+VALUES = [None, True, False, 0, 1, 1.0, 0.0, 7, -3, 2.5, -0.25, 10.0, [True, 1.0, 1, False, 0.0, 0], {'a': 1.0, 'b': True, 'c': 1}, 'txt', 'a b', 'x', [1, 2], ['a', True, 2.5], [[1, 2], ['z']], {'k': 1}, {'k': [1, 2], 'm': {'z': True, 'w': None}}, [1, 'x']]
 CTC_EXTRA = [('EQUALS', ('ADD', 'F1', 'F2'), 3), ('LOWER', ('MUL', 'F1', 2), ('DIV', 'F2', ('SUB', 'F1', 1))), ('GREATER', ('SUM', 'cost', 'F1'), 3),
              ('NOT_EQUALS', ('AVG', 'cost', 'F1'), 2.5), ('EQUALS', 'F1', "'txt'"), ('GREATER_EQUALS', 'F1', 1), ('LOWER_EQUALS', 2, 'F1'),
              ('AND', ('GREATER', 'F1', 0), ('IMPLIES', 'F2', ('LOWER', ('SUB', 'F1', 'F2'), 4))), ('EQUALS', ('SUB', ('SUB', 'F1', 'F2'), 'F1'), 0),
@@ -311,6 +311,47 @@ def star_cards(shape, rnd):
         a = rnd.randint(0, k)
         b = rnd.choice([-1] + list(range(max(a, 1), k + 1)))
         out.append((a, b))
+    return out
+
+
+def batch_typed_values(seed):
+    """values that are equal in Python but of different type (True / 1 / 1.0, False / 0 / 0.0) in one model and in
+    consecutive models of one process, in every order: the type written must be the type read back."""
+    res = {'instances': 0, 'nontrivial': 0, 'violations': [], 'native_runs': 0}
+    shape = (((), ()), ((),))
+    import itertools
+    groups = [[True, 1.0, 1], [False, 0.0, 0], [1.0, True], [0.0, False], [2, 2.0], [[1.0, True], [True, 1.0]], [{'k': 1.0}, {'k': True}, {'k': 1}]]
+    for g in groups:
+        for perm in itertools.permutations(g):
+            attrs = [(i % 4, 'v%d' % i, v) for i, v in enumerate(perm)]
+            args = [shape, [(1, 2), (0, 1)], None, None, None, None, attrs, []]
+            res['instances'] += 1
+            res['native_runs'] += 1
+            res['nontrivial'] += 1
+            bad = replay_file(*args)
+            if bad:
+                res['violations'].append({'label': 'uvl-typed-values', 'detail': bad[0], 'replay_func': 'replay_file', 'replay_args': args})
+                if len(res['violations']) >= 4:
+                    return res
+            # the same values one per model, models written one after the other
+            for v in perm:
+                a2 = [shape, [(1, 2), (0, 1)], None, None, None, None, [(1, 'w', v)], []]
+                res['instances'] += 1
+                res['native_runs'] += 1
+                bad = replay_file(*a2)
+                if bad:
+                    res['violations'].append({'label': 'uvl-typed-values', 'detail': bad[0] + ' (after other models in the same process)', 'replay_func': 'replay_typed_sequence', 'replay_args': [list(perm)]})
+                    if len(res['violations']) >= 4:
+                        return res
+    res['sample'] = {'groups': repr(groups)[:200]}
+    return res
+
+
+def replay_typed_sequence(values):
+    shape = (((), ()), ((),))
+    out = []
+    for v in values:
+        out += replay_file(shape, [(1, 2), (0, 1)], None, None, None, None, [(1, 'w', v)], [])
     return out
 
 
@@ -515,6 +556,7 @@ def batches(tier, seed):
     b += [('batch_trees', [lo, lo + st, full]) for lo in range(0, nt, st)]
     b += [('batch_lexer_contract', [lo, lo + 400]) for lo in range(0, 1400, 400)]
     b.append(('batch_dups', []))
+    b.append(('batch_typed_values', [seed]))
     return b
 
 
